@@ -85,7 +85,6 @@ var escapeTable = map[string]string{
 	"openapi.NewSchemaObject":                                   "type switch over the two Schema implementations of the module (JSchema, RSchema)",
 	"(openapi.dereference).schema":                              "type switch over the two Schema implementations of the module",
 	"(openapi.dereference).userType":                            "user type missing: Check() of an accepted schema already proved every referenced type exists",
-	"(*openapi.dereference).jSchema":                            "TokenType of an AST node of an accepted schema is one of the seven TokenType constants, all handled",
 	"(openapi.ObjectInfo).allOf":                                "allOf rule value is a reference or an array of references (loader rejects anything else)",
 	"(openapi.SchemaInfo).Type":                                 "TokenType of an AST node of an accepted schema is one of the seven constants, all handled",
 	"(*openapi/internal/jsoac.AllOf).append":                    "allOf rule value is a reference or an array of references",
